@@ -106,12 +106,9 @@ class StmtCompiler(CompilerBase, AstVisitor[None]):
         unpack = self.builder.add_op(ops.UnpackTuple(types), port)
         ports = list(unpack)
 
-        # Assign left and right
+        # Assign from left to right: left, then starred, then right
         for pat, wire in zip(left, ports[: len(left)], strict=True):
             self._assign(pat, wire)
-        if right:
-            for pat, wire in zip(right, ports[-len(right) :], strict=True):
-                self._assign(pat, wire)
 
         # Starred assignments are collected into an array
         if starred:
@@ -125,6 +122,10 @@ class StmtCompiler(CompilerBase, AstVisitor[None]):
             )
             self._assign(starred, array)
 
+        if right:
+            for pat, wire in zip(right, ports[-len(right) :], strict=True):
+                self._assign(pat, wire)
+
     @_assign.register
     def _assign_array(self, lhs: ArrayUnpack, port: Wire) -> None:
         """Handles assignment where the RHS is an array that should be unpacked."""
@@ -134,10 +135,9 @@ class StmtCompiler(CompilerBase, AstVisitor[None]):
         elt_ty = lhs.elt_type.to_hugr(self.ctx)
 
         def pop(
-            array: Wire, length: int, pats: list[ast.expr], from_left: bool
-        ) -> tuple[Wire, int]:
+            array: Wire, length: int, num_pats: int, from_left: bool
+        ) -> tuple[Wire, int, list[Wire]]:
             err = "Internal error: unpacking of iterable failed"
-            num_pats = len(pats)
             # Pop the number of requested elements from the array
             elts = []
             for i in range(num_pats):
@@ -146,25 +146,24 @@ class StmtCompiler(CompilerBase, AstVisitor[None]):
                 )
                 [elt, array] = build_unwrap(self.builder, res, err)
                 elts.append(elt)
-            # Assign elements to the given patterns
-            for pat, elt in zip(
-                pats,
-                # Assignments are evaluated from left to right, so we need to assign in
-                # reverse order if we popped from the right
-                elts if from_left else reversed(elts),
-                strict=True,
-            ):
-                self._assign(pat, elt)
-            return array, length - num_pats
+            # Return the elements in the order of the patterns they belong to, i.e. in
+            # reverse order if we popped from the right
+            return array, length - num_pats, elts if from_left else elts[::-1]
 
+        left, right = lhs.pattern.left, lhs.pattern.right
         array = port
-        array, length = pop(array, length, lhs.pattern.left, True)
-        array, length = pop(array, length, lhs.pattern.right, False)
+        array, length, left_elts = pop(array, length, len(left), True)
+        array, length, right_elts = pop(array, length, len(right), False)
+        # Assignments are evaluated from left to right: left, then starred, then right
+        for pat, elt in zip(left, left_elts, strict=True):
+            self._assign(pat, elt)
         if lhs.pattern.starred:
             self._assign(lhs.pattern.starred, array)
         else:
             assert length == 0
             self.builder.add_op(array_discard_empty(elt_ty), array)
+        for pat, elt in zip(right, right_elts, strict=True):
+            self._assign(pat, elt)
 
     @_assign.register
     def _assign_iterable(self, lhs: IterableUnpack, port: Wire) -> None:
